@@ -10,6 +10,7 @@ import (
 	"math/rand"
 	"sort"
 	"strings"
+	"sync"
 
 	"0chain.net/chaincore/block"
 	cstate "0chain.net/chaincore/chain/state"
@@ -37,6 +38,9 @@ type input struct {
 	XP        float64 `json:"xp"`
 	Seed      int64   `json:"seed"`
 	Path      string  `json:"path,omitempty"` // "" = SimpleNodes.reduce directly; "miners" = DKGMinerNodes.reduceNodes(final)
+	// Conc != nil: a concurrent batch -- goroutine g runs the selections Conc[g] one after the other while the
+	// other goroutines run theirs; every result must equal the result of the same selection run alone
+	Conc [][]input `json:"conc,omitempty"`
 }
 
 type setPool map[string]bool
@@ -458,6 +462,87 @@ func run(in input) result {
 	return res
 }
 
+// ---------- concurrent selections ----------
+
+func obsKey(o observed) string {
+	return fmt.Sprintf("%v|%d|%s|%s", o.panic, o.ret, o.err, strings.Join(o.ids, ","))
+}
+
+// runBatch runs the batch `rounds` times; returns (g, i) of the first selection whose concurrent result
+// differs from its sequential result, the observation, or g = -1
+func runBatch(conc [][]input, rounds int) (int, int, observed) {
+	seq := make([][]string, len(conc))
+	for g := range conc {
+		for _, in := range conc[g] {
+			seq[g] = append(seq[g], obsKey(runReal(in, false)))
+		}
+	}
+	for r := 0; r < rounds; r++ {
+		type bad struct {
+			g, i int
+			o    observed
+		}
+		var mu sync.Mutex
+		var first *bad
+		var wg sync.WaitGroup
+		start := make(chan struct{})
+		for g := range conc {
+			wg.Add(1)
+			go func(g int) {
+				defer wg.Done()
+				<-start
+				for i, in := range conc[g] {
+					o := runReal(in, false)
+					if obsKey(o) != seq[g][i] {
+						mu.Lock()
+						if first == nil {
+							first = &bad{g, i, o}
+						}
+						mu.Unlock()
+						return
+					}
+				}
+			}(g)
+		}
+		close(start)
+		wg.Wait()
+		if first != nil {
+			return first.g, first.i, first.o
+		}
+	}
+	return -1, -1, observed{}
+}
+
+// a tie-heavy selection: many candidates tied at the cut-off stake, more candidates than slots
+func genTied(r *vh.Rand) input {
+	var in input
+	n := r.Range(8, 24)
+	ids := r.Perm(40)
+	top := r.Intn(3)
+	for i := 0; i < n; i++ {
+		st := uint64(10)
+		if i < top {
+			st = 20
+		}
+		in.Cands = append(in.Cands, cand{ID: ids[i], Stake: st})
+	}
+	in.Limit = r.Range(top+1, n-1)
+	in.Seed = int64(r.U64())
+	in.NilPool = true
+	return in
+}
+
+func genBatch(r *vh.Rand, perG int) [][]input {
+	g := r.Range(4, 8)
+	conc := make([][]input, g)
+	for i := range conc {
+		for j := 0; j < perG; j++ {
+			conc[i] = append(conc[i], genTied(r))
+		}
+	}
+	return conc
+}
+
 // ---------- generators ----------
 
 var stakeSets = [][]uint64{
@@ -528,7 +613,7 @@ func main() {
 	rep := vh.NewReport("reduce", "C39", o)
 	rep.Rule = "calls of the real SimpleNodes.reduce (4 in 5 directly with a set-backed or nil Pooler, 1 in 5 through DKGMinerNodes.reduceNodes(final) with a real previous magic block and node pool): 0-16 candidates, stakes from tie-rich sets and " +
 		"uint64 edge values (0, 1, 2^53+-1, 2^63, 2^64-1), previous members among and outside the candidates, limit in {0,1,2,3,n/2,n-1,n,n+1,n+7}, x_percent in {0,.1,.25,.35,.5,.7,.99,1}, random and small seeds; malformed stream: x_percent > 1 or < 0, negative limit, extreme seeds " +
-		"(model correspondence only); exhaustive: all stake assignments over {1,2} for <=5 candidates x limit x 3 seeds; each input is run twice (map built in both orders). non-trivial = more candidates than free slots with at least two tied at the cut-off stake"
+		"(model correspondence only); exhaustive: all stake assignments over {1,2} for <=5 candidates x limit x 3 seeds; each input is run twice (map built in both orders); concurrent stream: batches of 4-8 goroutines x 150 tie-heavy selections (8-24 candidates, most tied at the cut-off, own seeds) run at the same time, every result compared with the same selection run alone. non-trivial = more candidates than free slots with at least two tied at the cut-off stake"
 	cf := &vh.CasesFile{Imports: []string{"Base.Corr", "Model.Reduce", "Corr.Reduce"}, CaseType: "rd_case", CheckFn: "rd_check", Shard: 100}
 
 	handle := func(in input, toCoq bool) {
@@ -610,10 +695,53 @@ func main() {
 		rep.ShardSize = 100
 		rep.Write(o.Out)
 	}
+	handleBatch := func(conc [][]input, rounds int) bool {
+		rep.Count("concurrent-batches")
+		nsel := 0
+		for _, l := range conc {
+			nsel += len(l)
+		}
+		rep.CountN("concurrent-selections", nsel*rounds)
+		g, i, obs := runBatch(conc, rounds)
+		if g < 0 {
+			return false
+		}
+		// the model's answer is the sequential one: emit the deviating observation as a case as well
+		in := conc[g][i]
+		res := run(in)
+		_ = res
+		// smallest batch that still shows it: two goroutines repeating two selections
+		small := [][]input{{in}, {conc[(g+1)%len(conc)][0]}}
+		for k := 0; k < 200; k++ {
+			small[0] = append(small[0], in)
+			small[1] = append(small[1], small[1][0])
+		}
+		replay := input{Conc: conc}
+		if sg, _, _ := runBatch(small, 20); sg >= 0 {
+			replay = input{Conc: [][]input{{in}, {small[1][0]}}}
+		}
+		rep.Violate("C39:result-differs-when-selections-run-concurrently",
+			fmt.Sprintf("view-change node selection: a selection run while other selections run in other goroutines chose %v instead of its sequential result (replay repeats the batch; a two-goroutine replay repeats each selection 200 times)", obs.ids), replay)
+		return true
+	}
 	var rin input
 	if o.LoadReplay(&rin) {
 		rep.Note("replay of one input")
-		handle(rin, true)
+		if rin.Conc != nil {
+			conc := rin.Conc
+			if len(conc) == 2 && len(conc[0]) == 1 && len(conc[1]) == 1 {
+				a, b := conc[0][0], conc[1][0]
+				for k := 0; k < 200; k++ {
+					conc[0] = append(conc[0], a)
+					conc[1] = append(conc[1], b)
+				}
+			}
+			handle(conc[0][0], true) // the model's (sequential) answers for the first selections, as cases
+			handle(conc[len(conc)-1][0], true)
+			handleBatch(conc, 50)
+		} else {
+			handle(rin, true)
+		}
 		finish()
 		return
 	}
@@ -623,6 +751,17 @@ func main() {
 	}
 	for i := 0; i < o.N(80, 800); i++ {
 		handle(gen(rnd, true), true)
+	}
+	// concurrent stream: batches of 4-8 goroutines, each running tie-heavy selections with its own seeds
+	for b := 0; b < o.N(6, 40); b++ {
+		conc := genBatch(rnd, o.N(150, 400))
+		if handleBatch(conc, 2) {
+			break
+		}
+		// a few of them also go to the model (their concurrent results equal the sequential ones here)
+		for g := 0; g < 2; g++ {
+			handle(conc[g][0], true)
+		}
 	}
 	// exhaustive small scope
 	nExh := 0
